@@ -7,9 +7,11 @@ import (
 	"os"
 	"path/filepath"
 	"sort"
+	"strconv"
 	"strings"
 	"testing"
 	"testing/synctest"
+	"time"
 
 	"github.com/mithrandie/csvq/lib/query"
 )
@@ -199,7 +201,23 @@ func Execute(t *testing.T, sc *Scenario, dec *Decider, obs ...Observer) (*RunRes
 			k.Run()
 		})
 	}()
-	<-done
+	if stacks := waitBubble(done, k); stacks != "" {
+		// The bubble is abandoned: its goroutines stay blocked (or spinning) until
+		// the process ends, and nothing of the controller's state is read. The
+		// batch stops after this evaluation (AbandonedRuns).
+		AbandonedRuns++
+		res.Hang = fmt.Sprintf("no scheduler turn for %v of REAL time: a simulated goroutine is blocked where no timer or other goroutine can release it (mutex never unlocked, spin, blocking system call)\n%s", realStallLimit(), stacks)
+		res.Final = SnapshotDir(dir)
+		res.StartIDs = startIDs
+		res.FinalIDs = statFiles(dir, sc.Files)
+		for range sc.Procs {
+			res.Procs = append(res.Procs, &ProcResult{ErrText: "process did not finish", ExitCode: -1})
+			res.ProcYields = append(res.ProcYields, 0)
+			res.StepHits = append(res.StepHits, nil)
+		}
+		res.LogHash, res.TraceHash = "abandoned", "abandoned"
+		return res, k
+	}
 	res.Log = k.log
 	res.Decisions = dec.Vec
 	res.Stats = k.Stats
@@ -214,6 +232,9 @@ func Execute(t *testing.T, sc *Scenario, dec *Decider, obs ...Observer) (*RunRes
 			p.res = &ProcResult{ErrText: "process did not finish", ExitCode: -1}
 		}
 		res.Procs = append(res.Procs, p.res)
+		for i := 0; i < p.res.StdoutFaults; i++ {
+			res.Stats.fault("stdout-enospc")
+		}
 		res.ProcYields = append(res.ProcYields, p.yields)
 		res.StepHits = append(res.StepHits, p.stepHits)
 	}
@@ -236,4 +257,40 @@ func Execute(t *testing.T, sc *Scenario, dec *Decider, obs ...Observer) (*RunRes
 	res.LogHash = hex.EncodeToString(h.Sum(nil)[:12])
 	res.TraceHash = hex.EncodeToString(th.Sum(nil)[:12])
 	return res, k
+}
+
+// AbandonedRuns counts simulated runs given up by the real-time watchdog.
+var AbandonedRuns int
+
+func realStallLimit() time.Duration {
+	if v, err := strconv.Atoi(os.Getenv("VERIF_REAL_STALL_S")); err == nil && v > 0 {
+		return time.Duration(v) * time.Second
+	}
+	return 30 * time.Second
+}
+
+// waitBubble waits for the bubble to end. It runs outside the bubble, so its
+// ticker is real time. If the controller has not had a turn for the stall
+// limit it returns the stacks of the simulated goroutines that are not parked
+// at a yield point; "" when the bubble ended.
+func waitBubble(done chan struct{}, k *Kernel) string {
+	tick := time.NewTicker(time.Second)
+	defer tick.Stop()
+	last, since := int64(-1), time.Now()
+	for {
+		select {
+		case <-done:
+			return ""
+		case <-tick.C:
+			if cur := k.progress.Load(); cur != last {
+				last, since = cur, time.Now()
+			} else if time.Since(since) > realStallLimit() {
+				st := blockedStacks()
+				if st == "" {
+					st = "(no simulated goroutine inside csvq code found)"
+				}
+				return st
+			}
+		}
+	}
 }
